@@ -103,3 +103,23 @@ Definition fits_norefresh (c : c17case) : bool :=
   let act := map (fun j => nth j (s_dists c) dflt_d) (s_order c) in
   let r := sim_loop_memo interp 0%Z zsample NoRefresh g rs (combine act (s_seeds c)) in
   Bool.eqb (snd r) (s_err c) && value_nodes_agree g (vals (cur (fst r))) (s_vals c).
+
+(* ---- real-tfd layer: one row per recorded draw --------------------------------------------------------
+   vs = shape of the variable's value at the call, b / e = batch / event shape of its distribution rebuilt
+   from scratch at the drawn values, obs = the sample_shape that tfp's sample received, fin = shape of the
+   value after simulate.  The row agrees with the model when the current value ends in b ++ e, the code
+   asked for [sample_shape vs b e], and the shape is preserved. *)
+Record shrow := mkSh { sr_vs : list nat; sr_b : list nat; sr_e : list nat; sr_obs : list nat; sr_fin : list nat }.
+Definition shrow_ok (r : shrow) : bool :=
+  let n := length (sr_vs r) - length (sr_b r) - length (sr_e r) in
+  list_eqb Nat.eqb (skipn n (sr_vs r)) (sr_b r ++ sr_e r)
+  && list_eqb Nat.eqb (sample_shape (sr_vs r) (sr_b r) (sr_e r)) (sr_obs r)
+  && list_eqb Nat.eqb (sr_obs r ++ sr_b r ++ sr_e r) (sr_fin r)
+  && list_eqb Nat.eqb (sr_fin r) (sr_vs r).
+
+(* the value cached by the Dist node of a variable: per_obs flag, shape of the variable's value, event shape,
+   observed shape of the node's value (after simulate if the node reports itself up to date, and after
+   update()) *)
+Record lprow := mkLp { lp_per_obs : bool; lp_vs : list nat; lp_e : list nat; lp_obs : list nat }.
+Definition lprow_ok (r : lprow) : bool :=
+  list_eqb Nat.eqb (logprob_shape (lp_per_obs r) (lp_vs r) (lp_e r)) (lp_obs r).
